@@ -164,6 +164,7 @@ def check_C13(run):
     if not prepare(run):
         return
     C.proofs_step(run, 'C13')
+    from . import trials as _trials; _trials.run_trials(run, 'C13')
     general_l2(run)
     run.cov['rule'] = ('L2: real sync() against scripted doers; listings delivered one message at a time in a forced order; '
                        'exhaustive interleavings of small tree pairs + sampled interleavings and sibling permutations of larger ones; '
@@ -566,6 +567,7 @@ def check_C11(run):
     if not prepare(run):
         return
     C.proofs_step(run, 'C11')
+    from . import trials as _trials; _trials.run_trials(run, 'C11')
     doer_model_stream(run)
     general_l2(run)
     consts = run.extract_status.get('constants', {})
@@ -818,6 +820,7 @@ def check_C16(run):
     def on_broken(failed):
         return None   # the exhaustive product below is the search: it runs anyway and reports the failing argv
     C.proofs_step(run, 'C16', on_broken)
+    from . import trials as _trials; _trials.run_trials(run, 'C16')
     st = run.extract_status
     broken = {k: v for k, v in st.items() if isinstance(v, str) and 'not recognised' in v and
               k.split(':')[0] in ('default', 'all-destructive', 'flag-override', 'filters-replace', 'deploy-override')}
@@ -1070,6 +1073,7 @@ def check_C06(run):
             return dict(found_by='L4 filter stream', **l4_fails[0])
         return None
     C.proofs_step(run, 'C06', on_broken)
+    from . import trials as _trials; _trials.run_trials(run, 'C06')
     if l4_fails and not any(not v[1] for v in run.violations):
         run.violation(dict(kind='oracle-failed-on-implementation', oracle='included entries are mirrored; excluded entries are untouched on both sides', failing_cases=len(l4_fails), **l4_fails[0]))
     if oracle_fail and not run.violations:
@@ -1200,6 +1204,7 @@ def check_C10(run):
             return dict(found_by='manipulation scripts against the real link', **o)
         return None
     C.proofs_step(run, 'C10', on_broken)
+    from . import trials as _trials; _trials.run_trials(run, 'C10')
     if oracle_fail and not run.violations:
         o = min(oracle_fail, key=lambda o: len(o['request_line']))
         run.violation(dict(kind='oracle-failed-on-implementation', oracle='delivered = unmodified in-order prefix; no key-stream reuse', failing_cases=len(oracle_fail), **o))
@@ -1339,6 +1344,7 @@ def check_C15(run):
     if not prepare(run, need_cli=True):
         return
     C.proofs_step(run, 'C15')
+    from . import trials as _trials; _trials.run_trials(run, 'C15')
     rng = run.rng
     run.cov['rule'] = ('L1: the two key-text expressions on keys incl. every number of leading zero bytes; L4: the CLI against a fake ssh/scp (real --doer process, real TCP + AES-GCM) over '
                        'remote states {absent, same version, other version, broken} x deploy behaviours x prompt answers, one or both doers remote; log of launches / uploads / stdin of a wrong-version doer '
@@ -1815,6 +1821,7 @@ def check_C14(run):
             return dict(found_by='real channel runs with an idle receiver', **min(chan_fail, key=lambda o: len(o['request_line'])))
         return None
     C.proofs_step(run, 'C14', on_broken)
+    from . import trials as _trials; _trials.run_trials(run, 'C14')
     if chan_fail and not any(not v[1] for v in run.violations):
         run.violation(dict(kind='oracle-failed-on-implementation', oracle='admitted iff counted-before <= capacity; all arrive in order, intact; accounted size 0 after draining',
                            failing_cases=len(chan_fail), **min(chan_fail, key=lambda o: len(o['request_line']))))
@@ -2211,6 +2218,7 @@ def check_C02(run):
     if not prepare(run, need_cli=True):
         return
     C.proofs_step(run, 'C02')
+    from . import trials as _trials; _trials.run_trials(run, 'C02')
     rng = run.rng
     run.cov['rule'] = ('L2: the real sync() against scripted doers over mixed scenarios (roots of every kind, conflicts, behaviours, answers, dry runs, error replies, unexpected replies): '
                        'oracle = whitelist on the source trace, CreateRootAncestors only to the destination, at most once, never in a dry run; '
@@ -2315,6 +2323,7 @@ def check_C03(run):
     if not prepare(run):
         return
     C.proofs_step(run, 'C03')
+    from . import trials as _trials; _trials.run_trials(run, 'C03')
     general_l2(run)
     rng = run.rng
     run.cov['rule'] = ('L2: behaviour assignments from the 4^5 product x prompt-answer scripts (skip/do, once/all, cancel at the k-th prompt, exhausted script = unattended terminal) x tree pairs mixing '
@@ -2348,6 +2357,7 @@ def check_C05(run):
     if not prepare(run, need_cli=True):
         return
     C.proofs_step(run, 'C05')
+    from . import trials as _trials; _trials.run_trials(run, 'C05')
     general_l2(run)
     rng = run.rng
     run.cov['rule'] = ('L2: paired runs of the real sync() on the same scenario with and without dry_run; oracles: the dry run sends nothing mutating and no GetFileContent; its "Would ..." lines and summary counts '
@@ -2418,6 +2428,8 @@ def check_C07(run):
     if not prepare(run, need_cli=True):
         return
     C.proofs_step(run, 'C07')
+    from . import trials as _trials; _trials.run_trials(run, 'C07')
+    _trials.run_spec_stream(run)
     doer_model_stream(run)
     general_l2(run)
     rng = run.rng
@@ -2551,6 +2563,7 @@ def check_C08(run):
     if not prepare(run, need_cli=True):
         return
     C.proofs_step(run, 'C08')
+    from . import trials as _trials; _trials.run_trials(run, 'C08')
     doer_model_stream(run)
     rng = run.rng
     consts = run.extract_status.get('constants', {})
@@ -2766,6 +2779,8 @@ def check_C09(run):
     if not prepare(run, need_cli=True):
         return
     C.proofs_step(run, 'C09')
+    from . import trials as _trials; _trials.run_trials(run, 'C09')
+    _trials.run_spec_stream(run)
     rng = run.rng
     run.cov['rule'] = ('L4 under a watchdog: the CLI with a fault (destination error while source data is in flight, unwritable destination, remote doer aborted at a crash point) x queue occupancy '
                        '{below, at, above} the channel capacity (capacity override with KB..MB files; thorough: hook-free with sparse files above 100 MiB) x placement (local, fake-ssh remote); '
@@ -2787,8 +2802,14 @@ def check_C09(run):
                 configs.append(('dest-error-ENOTEMPTY', occ, cap, size, place))
         configs += [('dest-unwritable', 'above', 20000, 400000, 'local'), ('remote-doer-abort', 'above', 20000, 400000, 'remote-dest'),
                     ('remote-doer-abort', 'below', None, 2000, 'remote-dest'), ('remote-doer-abort', 'above', 20000, 400000, 'remote-both')]
+        # a destination write error in the middle of a file (EFBIG: RLIMIT_FSIZE with SIGXFSZ ignored) while the source still has more than the
+        # capacity to send: with the capacity override (several repetitions: whether the source doer is caught mid-send is a matter of timing)
+        # and hook-free with a sparse file of several times the real capacity
+        configs += [('dest-efbig', 'above', 20000, 400000, 'local')] * 3 + [('dest-efbig', 'above', 20000, 400000, 'remote-dest')]
+        configs.append(('dest-efbig', 'above-hook-free', None, 450 * 1024 * 1024, 'local'))
         if thorough:
             configs.append(('dest-error-ENOTEMPTY', 'above-hook-free', None, 150 * 1024 * 1024, 'local'))
+            configs += [('dest-efbig', 'above-hook-free', None, 1024 * 1024 * 1024, 'local')] * 2
         sb.place_remote('same')
         for k, (fault, occ, cap, size, place) in enumerate(configs):
             base, src, dst = mk(f'c{k}', size if occ != 'above-hook-free' else 10, 3)
@@ -2812,6 +2833,13 @@ def check_C09(run):
                     os.setgroups([]); os.setgid(65534); os.setuid(65534)
             elif fault == 'remote-doer-abort':
                 env['RJRSSYNC_VERIF_CRASH_AT'] = str(rng.choice([1, 2, 3, 5]))
+            elif fault == 'dest-efbig':
+                import resource as _res, signal as _sig
+                lim_ = 16 * 1024 * 1024 if occ == 'above-hook-free' else 9000
+                def pre(lim_=lim_):
+                    _sig.signal(_sig.SIGXFSZ, _sig.SIG_IGN)
+                    _res.setrlimit(_res.RLIMIT_FSIZE, (lim_, lim_))
+                args += ['--no-progress']
             r = l4.run_cli(args, env=sb.env(env), timeout=WATCHDOG if occ != 'above-hook-free' else 120, preexec=pre)
             subprocess.run(['pkill', '-f', sb.remote + '/rjrssync/rjrssync'], capture_output=True)
             run.case(('watchdog', fault, occ, place), True, sample=dict(layer='L4', fault=fault, occupancy=occ, capacity=cap, file_bytes=size, placement=place, rc=r['rc'], wall_s=round(r['wall'], 2), timed_out=r['timeout']))
@@ -3184,6 +3212,7 @@ def check_C18(run):
     def on_broken(failed):
         return dict(found_by='CLI fuzz / recorded witness', **fails[0]) if fails else None
     C.proofs_step(run, 'C18', on_broken)
+    from . import trials as _trials; _trials.run_trials(run, 'C18')
     if fails and not any(not v[1] for v in run.violations):
         run.violation(dict(kind='oracle-failed-on-implementation', oracle='documented exit status, a message on failure, never a panic / signal / time-out', failing_cases=len(fails), **fails[0]))
     st = run.extract_status
@@ -3251,6 +3280,7 @@ def check_C17(run):
     if not prepare(run):
         return
     C.proofs_step(run, 'C17')
+    from . import trials as _trials; _trials.run_trials(run, 'C17')
     rng = run.rng
     run.cov['rule'] = ('L3: the real doer\'s GetEntries (real parallel_walk_dir) on generated trees (wide, deep, empty folders, symlinks to folders / ancestors / nothing, > result-queue-bound entries) with the '
                        'worker-count override 1,2,4,16 and scheduling jitter; oracle = an independent walk: same multiset of paths and kinds, every folder before anything inside it, nothing beneath an excluded '
@@ -3379,6 +3409,7 @@ def check_C19(run):
     if not prepare(run, need_cli=True):
         return
     C.proofs_step(run, 'C19')
+    from . import trials as _trials; _trials.run_trials(run, 'C19')
     rng = run.rng
     run.cov['rule'] = ('L1: the real add/extract functions of exe_utils (dev profile, under catch_unwind) on synthetic ELF64 / PE images with varied geometry (section counts, names-section position, header gaps 0..80, '
                        'file/section alignments 1..64 KiB, payloads 0..4 KiB; thorough: to 1 MiB) and on truncations / field corruptions of them: output bytes / error / panic = model, byte for byte; oracle: extract(add(x)) returns the payload '
@@ -3833,6 +3864,7 @@ def check_C01(run):
     def on_broken(failed):
         return dict(found_by='L4 tree-pair stream with the independent mirror comparison', **fails[0]) if fails else None
     C.proofs_step(run, 'C01', on_broken)
+    from . import trials as _trials; _trials.run_trials(run, 'C01')
     if fails and not any(not v[1] for v in run.violations):
         run.violation(dict(kind='oracle-failed-on-implementation', oracle='exit 0 without skips => the effective destination mirrors the source; excluded entries untouched; forbidden combinations change nothing',
                            failing_cases=len(fails), **fails[0]))
